@@ -71,10 +71,13 @@ bool Hist::opSetRate(bool analog) {
     static const float prs[] = {50.f, 100.f, 120.f, 200.f, 29.97f, 59.94f, 60.f, 250.f, 1000.f, 29.5f, 59.5f, 100.25f, 100.5f, 0.5f, 0.25f, 0.999f, 120.75f, 30.3f, 7.7f, 47.95f, 23.976f};   /* the last four: ratios that land a hair below an integer in float arithmetic */
     float pr = float0(prev, "POINT", "RATE"); float r;
     float arNow = float0(prev, "ANALOG", "RATE");
-    if (!analog) { r = prs[rng.below(sizeof prs / sizeof prs[0])]; if (arNow != 0.f && !wild) r = arNow / (float)rng.range(1, (int)o.geti("maxsub", 6)); /* keep the sub-frame ratio small once the analog rate is known */ if (rng.chance(6)) r = 0.f; }
+    if (!analog) { r = prs[rng.below(sizeof prs / sizeof prs[0])]; if (arNow != 0.f && arNow < 50000.f && !wild) r = arNow / (float)rng.range(1, (int)o.geti("maxsub", 6)); /* keep the sub-frame ratio small once the analog rate is known */ if (rng.chance(6)) r = 0.f; }
     else { float base = pr != 0.f ? pr : 100.f; r = base * (float)rng.range(1, (int)o.geti("maxsub", 6));
         { static const float fr[] = {30.3f, 7.7f, 47.95f, 23.976f, 30.3f, 47.95f}; static const int fk[] = {3, 3, 7, 15, 6, 14};   /* float ratios that land a hair below the integer */
           for (int q = 0; q < 6; ++q) if (base == fr[q] && rng.chance(45)) { r = base * (float)fk[q]; break; } } if (rng.chance(5)) r = 0.f; else if (rng.chance(7)) r = base * 0.4f; }   // 0.4: an analog rate below half the point rate (ratio rounds to 0)
+    // rarely, before any frame exists: tens of thousands of sub-frames per frame (channels x sub-frames beyond 65 535 is more than a file can
+    // say, but the three views of the object must still agree); no frame is added in such a history (see opFrame)
+    if (analog && !wild && prev.frames.empty() && pr != 0.f && rng.chance(2)) { static const float big[] = {20000.f, 40000.f, 65536.f, 32768.f}; r = pr * big[rng.below(4)]; beyondInt16 = true; }
     // once frames are stored the sub-frame count is fixed by the data: a disciplined caller keeps ANALOG:RATE = POINT:RATE x sub-frames
     if (!wild && !prev.frames.empty()) {
         bool subs = false; for (size_t f = 0; f < prev.frames.size(); ++f) if (!prev.frames[f].subs.empty()) subs = true;
@@ -128,6 +131,13 @@ bool Hist::opAddParam() {
         std::string base = pnames[rng.below(pnames.size())], v = base + (rng.chance(50) ? "2" : "_X");
         bool exists = false; for (size_t i = 0; i < pnames.size(); ++i) if (upperS(pnames[i]) == upperS(v)) exists = true;
         if (!exists && v.size() < 100) name = v;
+    }
+    if (!replace && rng.chance(5)) {
+        // ... or one of the names the library itself manages (in whatever group): DATA_START_FIELD, LABELS2, RATE_X are ordinary parameters
+        static const char* mg[] = {"DATA_START", "DATA_START", "LABELS", "USED", "RATE", "FRAMES", "SCALE", "DESCRIPTIONS"}; static const char* sx[] = {"2", "_X", "_FIELD", "S"};
+        std::string v = std::string(mg[rng.below(8)]) + sx[rng.below(4)];
+        bool exists = false; for (size_t i = 0; i < pnames.size(); ++i) if (upperS(pnames[i]) == upperS(v)) exists = true;
+        if (!exists) name = v;
     }
     int bad = rng.chance(12) ? rng.range(1, 2) : 0;          // 1 unnamed, 2 untyped
     std::string d; Param p = genParam(bad == 1 ? "" : name, &d);
